@@ -675,6 +675,34 @@ class Path(object):
     def conds(self):
         return [(e[1], e[2]) for e in self.trace if e[0] == 'cond']
 
+    def facts(self):
+        """atom -> bool for every condition that is a literal (an atom or
+        its negation); complementary comparisons share one atom."""
+        out = {}
+        for k, pol in self.conds():
+            while k[0] == 'not':
+                k, pol = k[1], not pol
+            if k[0] in ('and', 'or', 'const'):
+                # a conjunction known true / disjunction known false fixes
+                # its members
+                if (k[0] == 'and' and pol) or (k[0] == 'or' and not pol):
+                    for x in k[1]:
+                        q = pol
+                        while x[0] == 'not':
+                            x, q = x[1], not q
+                        if x[0] not in ('and', 'or', 'const'):
+                            a, ap = atom_of(x)
+                            out[a] = q if ap else not q
+                continue
+            a, ap = atom_of(k)
+            out[a] = pol if ap else not pol
+        return out
+
+    def says(self, atom, value=True):
+        a, ap = atom_of(atom)
+        f = self.facts()
+        return a in f and f[a] == (value if ap else not value)
+
     def calls(self):
         return [e[1] for e in self.trace if e[0] == 'call']
 
